@@ -5,7 +5,7 @@ use std::collections::HashMap;
 use std::sync::Mutex;
 use std::time::Instant;
 
-pub const LIMIT_S: u64 = 45;
+pub const LIMIT_S: u64 = 75;
 
 type Job = (Instant, String, String, Vec<String>);
 static JOBS: Mutex<Option<HashMap<u64, Job>>> = Mutex::new(None);
